@@ -730,6 +730,9 @@ func Run(seed int64, n int, outDir string) error {
 	if err := r.scenarioPoor(ctx, poorOrders, thorough); err != nil {
 		return err
 	}
+	if err := r.scenarioDeepIncentive(ctx, poorOrders); err != nil {
+		return err
+	}
 	extremes := [][3]string{
 		{"1000000000000000000000000000000", "1000", "0.05"},
 		{"1000", "1000000000000000000000000000000", "0.003"},
